@@ -22,6 +22,8 @@ git -C "$WT" apply --whitespace=nowarn "$SRC/patch.diff" || { echo "RESULT patch
 cmake -G Ninja -S "$WT" -B "$WT/_build" -DCMAKE_BUILD_TYPE=RelWithDebInfo -DDBUS_BUILD_TESTS=ON \
   -DDBUS_ENABLE_EMBEDDED_TESTS=ON -DDBUS_ENABLE_MODULAR_TESTS=ON -DDBUS_ENABLE_VERBOSE_MODE=ON >/dev/null || { echo "RESULT cmake-failed"; exit 1; }
 cmake --build "$WT/_build" -j8 >/tmp/vs-$ID.build.log 2>&1 || { echo "RESULT build-failed"; tail -20 /tmp/vs-$ID.build.log; exit 1; }
+echo "== make sure /repo/_build matches /repo HEAD (lock: nobody may have a mutant applied meanwhile)"
+flock /tmp/repo.lock sh -c 'git -C /repo diff --quiet && cmake --build /repo/_build -j8 >/tmp/vs-repo-build.log 2>&1' || { echo "RESULT repo-build-failed-or-dirty"; exit 2; }
 echo "== demo on pristine"
 ( cd "$SRC" && timeout 600 sh ./run.sh /repo/_build ) ; P=$?
 echo "== demo on patched"
